@@ -1063,7 +1063,7 @@ pub fn c15_startup_schedules(ctx: &Ctx) -> Result<SchedSummary, String> {
                 // N <= 2: ALL interleavings at hook granularity (bound 64 exceeds the number of steps);
                 // N = 3 (thorough): preemption bound 3
                 let bound = std::env::var("VERIF_SCHED_BOUND").ok().and_then(|b| b.parse().ok()).unwrap_or(if n <= 2 { 64 } else { 3 });
-                let s = explore(ctx, &format!("{}{}", if health { "health_check_port set" } else { "no health check" }, if n >= 2 { " && num_workers>=2" } else { " && num_workers=1" }), &scn, &|_s: &Slot| None, bound, ctx.tier.pick(2500, 40000), Duration::from_secs(ctx.tier.pick(40, 600)))?;
+                let s = explore(ctx, &format!("{}{}", if health { "health_check_port set" } else { "no health check" }, if n >= 2 { " && num_workers>=2" } else { " && num_workers=1" }), &scn, &|_s: &Slot| None, bound, ctx.tier.pick(2500, 40000), Duration::from_secs(ctx.tier.pick(40, 180)))?;
                 total.merge(s);
             }
         }
